@@ -47,7 +47,7 @@ def gen_cases(tier, seed):
                         t['start'] = start
                     # stream flavour: declares seekable()/readable() like io.IOBase, or only offers the methods (probed)
                     if src == 'seekable':
-                        t['flavor'] = rng.choice(['declared', 'duck'])
+                        t['flavor'] = rng.choice(['declared', 'duck', 'fileno'])
                     elif src.startswith('nonseekable'):
                         t['flavor'] = rng.choice(['bare', 'declared', 'raising'])
                     if src == 'nonseekable_sized':
